@@ -193,6 +193,14 @@ fn view6(b: &[u8], h: &Ipv6HeaderSlice, e: &Ipv6ExtensionsSlice, payload: &[u8],
 }
 
 fn view_headers(b: &[u8], h: &IpHeaders, payload: &[u8], n: IpNumber, fr: bool, ls: LenSource, inc: bool, stop: Option<ObsErr>) -> IpView {
+    // the struct's own second doors: `is_fragmenting_payload()` is the flag its payload carries (a
+    // disagreement flips the view's flag, so the struct family then differs from its siblings), and
+    // `ipv4()` / `ipv6()` hand out exactly the variant held
+    let fr = if h.is_fragmenting_payload() == fr { fr } else { !fr };
+    match h {
+        IpHeaders::Ipv4(h4, e) => assert!(h.ipv6().is_none() && h.ipv4() == Some((h4, e)), "IpHeaders::ipv4()/ipv6() do not hand out the IPv4 variant held"),
+        IpHeaders::Ipv6(h6, e) => assert!(h.ipv4().is_none() && h.ipv6() == Some((h6, e)), "IpHeaders::ipv4()/ipv6() do not hand out the IPv6 variant held"),
+    }
     match h {
         IpHeaders::Ipv4(h4, e) => IpView { header: format!("{:?}", h4), exts: e.auth.iter().map(|a| format!("auth {:?}", a)).collect(), payload: off(b, payload), ip_number: n.0, fragmented: fr, len_source: ls, incomplete: inc, stop, ext_kinds: vec![] },
         IpHeaders::Ipv6(h6, e) => IpView { header: format!("{:?}", h6), exts: exts_from_struct6(e), payload: off(b, payload), ip_number: n.0, fragmented: fr, len_source: ls, incomplete: inc, stop, ext_kinds: vec![] },
